@@ -1,7 +1,9 @@
 package connection
 
 import (
+	"sort"
 	"sync"
+	"sync/atomic"
 
 	"github.com/VolantMQ/vlapi/mqttp"
 )
@@ -11,6 +13,15 @@ type onRelease func(o, n mqttp.IFace)
 type ackQueue struct {
 	messages  sync.Map
 	onRelease onRelease
+	seq       uint64
+}
+
+// ackEntry is what messages holds: the packet and the order in which it was stored. The map has no
+// order of its own, and what is unacknowledged when the connection ends has to be sent again in the
+// order in which it was sent [MQTT-4.6.0-1]
+type ackEntry struct {
+	pkt mqttp.IFace
+	seq uint64
 }
 
 func (a *ackQueue) store(pkt mqttp.IFace, replace bool) bool {
@@ -20,7 +31,7 @@ func (a *ackQueue) store(pkt mqttp.IFace, replace bool) bool {
 		return false
 	}
 
-	a.messages.Store(id, pkt)
+	a.messages.Store(id, ackEntry{pkt: pkt, seq: atomic.AddUint64(&a.seq, 1)})
 
 	return true
 }
@@ -33,12 +44,36 @@ func (a *ackQueue) release(pkt mqttp.IFace) bool {
 	// Delete after that would take the NEW message out of the unacknowledged set (not persisted at
 	// connection end, its acknowledgement frees nothing)
 	if value, ok := a.messages.LoadAndDelete(id); ok {
-		if orig, k := value.(mqttp.IFace); k && a.onRelease != nil {
-			a.onRelease(orig, pkt)
+		if orig, k := value.(ackEntry); k && a.onRelease != nil {
+			a.onRelease(orig.pkt, pkt)
 		}
 
 		return true
 	}
 
 	return false
+}
+
+// drain empties the queue and returns what it held, in the order in which it was stored
+func (a *ackQueue) drain() []mqttp.IFace {
+	var entries []ackEntry
+
+	a.messages.Range(func(k, v interface{}) bool {
+		if e, ok := v.(ackEntry); ok {
+			entries = append(entries, e)
+		}
+
+		a.messages.Delete(k)
+
+		return true
+	})
+
+	sort.Slice(entries, func(i, j int) bool { return entries[i].seq < entries[j].seq })
+
+	packets := make([]mqttp.IFace, len(entries))
+	for i, e := range entries {
+		packets[i] = e.pkt
+	}
+
+	return packets
 }
